@@ -498,6 +498,21 @@ def get_os_arch():
         return "Unknown"
 
 
+def math_result(fn, pos, *operands):
+    # the host reports arguments outside the domain of a function (acos(2),
+    # log(0), sqrt(-1), pow(0, -1)) and results beyond the range of a decimal
+    # (exp(2^70)) as ValueError / OverflowError
+    try:
+        return ValueDecimal(fn(*operands))
+    except (ValueError, OverflowError) as e:
+        raise CklRuntimeError(
+            ValueString("ERROR"),
+            fn.__name__ + "(" + ", ".join(str(x) for x in operands) + "): "
+            + str(e),
+            pos,
+        )
+
+
 class FuncAcos(ValueFunc):
     def __init__(self):
         super().__init__("acos")
@@ -517,7 +532,7 @@ class FuncAcos(ValueFunc):
     def execute(self, args, environment, pos):
         if args.isNull("x"):
             return NULL
-        return ValueDecimal(math.acos(args.getNumerical("x").value))
+        return math_result(math.acos, pos, args.getNumerical("x").value)
 
 
 class FuncAdd(ValueFunc):
@@ -658,7 +673,7 @@ class FuncAsin(ValueFunc):
     def execute(self, args, environment, pos):
         if args.isNull("x"):
             return NULL
-        return ValueDecimal(math.asin(args.getNumerical("x").value))
+        return math_result(math.asin, pos, args.getNumerical("x").value)
 
 
 class FuncAtan(ValueFunc):
@@ -680,7 +695,7 @@ class FuncAtan(ValueFunc):
     def execute(self, args, environment, pos):
         if args.isNull("x"):
             return NULL
-        return ValueDecimal(math.atan(args.getNumerical("x").value))
+        return math_result(math.atan, pos, args.getNumerical("x").value)
 
 
 class FuncAtan2(ValueFunc):
@@ -704,10 +719,11 @@ class FuncAtan2(ValueFunc):
             return NULL
         if args.isNull("x"):
             return NULL
-        return ValueDecimal(
-            math.atan2(
-                args.getNumerical("y").value, args.getNumerical("x").value
-            )
+        return math_result(
+            math.atan2,
+            pos,
+            args.getNumerical("y").value,
+            args.getNumerical("x").value,
         )
 
 
@@ -1141,7 +1157,7 @@ class FuncCos(ValueFunc):
     def execute(self, args, environment, pos):
         if args.isNull("x"):
             return NULL
-        return ValueDecimal(math.cos(args.getNumerical("x").value))
+        return math_result(math.cos, pos, args.getNumerical("x").value)
 
 
 class FuncDate(ValueFunc):
@@ -1479,7 +1495,7 @@ class FuncExp(ValueFunc):
     def execute(self, args, environment, pos):
         if args.isNull("x"):
             return NULL
-        return ValueDecimal(math.exp(args.getNumerical("x").value))
+        return math_result(math.exp, pos, args.getNumerical("x").value)
 
 
 class FuncFileInput(ValueFunc):
@@ -2480,7 +2496,7 @@ class FuncLog(ValueFunc):
     def execute(self, args, environment, pos):
         if args.isNull("x"):
             return NULL
-        return ValueDecimal(math.log(args.getNumerical("x").value))
+        return math_result(math.log, pos, args.getNumerical("x").value)
 
 
 class FuncLower(ValueFunc):
@@ -3044,11 +3060,11 @@ class FuncPow(ValueFunc):
             y = args.getInt("y").value
             if y >= 0:
                 return ValueInt(x ** y)
-            return ValueInt(int(math.pow(x, y)))
+            return ValueInt(int(math_result(math.pow, pos, x, y).value))
         else:
             x = args.get("x").asDecimal().value
             y = args.get("y").asDecimal().value
-            return ValueDecimal(math.pow(x, y))
+            return math_result(math.pow, pos, x, y)
 
 
 class FuncPrint(ValueFunc):
@@ -3662,7 +3678,7 @@ class FuncSin(ValueFunc):
     def execute(self, args, environment, pos):
         if args.isNull("x"):
             return NULL
-        return ValueDecimal(math.sin(args.getNumerical("x").value))
+        return math_result(math.sin, pos, args.getNumerical("x").value)
 
 
 class FuncSorted(ValueFunc):
@@ -3816,7 +3832,7 @@ class FuncSqrt(ValueFunc):
     def execute(self, args, environment, pos):
         if args.isNull("x"):
             return NULL
-        return ValueDecimal(math.sqrt(args.getNumerical("x").value))
+        return math_result(math.sqrt, pos, args.getNumerical("x").value)
 
 
 class FuncStartsWith(ValueFunc):
@@ -4161,7 +4177,7 @@ class FuncTan(ValueFunc):
     def execute(self, args, environment, pos):
         if args.isNull("x"):
             return NULL
-        return ValueDecimal(math.tan(args.getNumerical("x").value))
+        return math_result(math.tan, pos, args.getNumerical("x").value)
 
 
 class FuncTimestamp(ValueFunc):
